@@ -157,6 +157,31 @@ def read_pull_dest(dest):
         return None
 
 
+def run_async(coro):
+    """asyncio.run() without its unbounded clean-up: if the coroutine is abandoned (watchdog), pending tasks get 0.5 s to
+    unwind and are then dropped, instead of blocking the harness for ever on a task that cannot finish."""
+    import warnings
+    loop = asyncio.new_event_loop()
+    try:
+        asyncio.set_event_loop(loop)
+        return loop.run_until_complete(coro)
+    finally:
+        try:
+            pending = [t for t in asyncio.all_tasks(loop) if not t.done()]
+            for t in pending:
+                t.cancel()
+            if pending:
+                loop.run_until_complete(asyncio.wait(pending, timeout=0.5))
+            loop.run_until_complete(loop.shutdown_asyncgens())
+        except BaseException:  # noqa
+            pass
+        finally:
+            asyncio.set_event_loop(None)
+            with warnings.catch_warnings():
+                warnings.simplefilter("ignore")
+                loop.close()
+
+
 def build(scn, async_=None, lock_factory=None):
     """Create clock, simulator, wire core, transport and device for a scenario."""
     api = scn.get("api", "sync") if async_ is None else ("async" if async_ else "sync")
@@ -387,7 +412,7 @@ def run(scn, async_=None, lock_factory=None, keep_tmp=False, before_op=None):
                         _record(out, i, exc=e, t0=t0, n0=n0)
                     else:
                         _record(out, i, r, t0=t0, n0=n0)
-            asyncio.run(main())
+            run_async(main())
     finally:
         if out.tmpdir and not keep_tmp:
             shutil.rmtree(out.tmpdir, ignore_errors=True)
